@@ -225,7 +225,10 @@ def doc_skel(node, sphinx=False):
             inner = c
             if len(c.children) == 1 and isinstance(c.children[0], nodes.inline):
                 inner = c.children[0]
-            out.append(("link", "XREF", c.get("reftitle") or c.get("title"), doc_skel(inner, sphinx)))
+            # an unresolved MyST reference keeps its whole destination (fragment included) for the resolver
+            dest = "XREF:" + str(c.get("reftarget")) if (c.tagname == "pending_xref" and c.get("reftype") == "myst" and c.get("refdomain") is None and "#" in str(c.get("reftarget", ""))
+                                                         or (c.tagname == "pending_xref" and c.get("reftype") == "myst" and c.get("refdomain") is None and c.get("reftarget") == FRAG_DEST.split("#")[0])) else "XREF"
+            out.append(("link", dest, c.get("reftitle") or c.get("title"), doc_skel(inner, sphinx)))
         elif isinstance(c, nodes.table):
             rows = []
             for r in c.findall(nodes.row):
@@ -359,6 +362,7 @@ def _flat(x):
         yield x
 
 
+FRAG_DEST = "some/target#frag"
 INL = ["a", "*e*", "**s**", "`c`", "[l](http://u)", "![i](v)", "<b>", "<http://x>", "\\\n", "\n", "[*n*](w \"t\")", "**[k](z)**", "![*x* `y`](v \"t\")",
        "&amp;", "\\*", "[](http://e)", "****", "$m$", "~~s *e*~~", "*a **b** c*", "`` ` ``", "[a `c` **b**](<u v>)", "\"q\" -- ...",
        "![see [the *manual*](http://u) here](i.png)", "![~~s~~ **b** <i>h</i> &amp;](v)", "[![in](v) link](http://w)",
@@ -552,7 +556,11 @@ def mask_for_sphinx(sk):
     for it in sk:
         if it[0] == "link":
             dest = it[1]
-            if dest == "XREF" or not (isinstance(dest, str) and dest.startswith(("http:", "https:", "mailto:", "ftp:"))):
+            if isinstance(dest, str) and dest.startswith("XREF:"):
+                dest = "LOCAL:" + dest[5:]  # (kept: the Sphinx side must hand the fragment on)
+            elif dest == FRAG_DEST or dest == "other/doc#f2":
+                dest = "LOCAL:" + dest  # the docutils side of the same links
+            elif dest == "XREF" or not (isinstance(dest, str) and dest.startswith(("http:", "https:", "mailto:", "ftp:"))):
                 dest = "LOCAL"
             out.append(("link", dest, None if dest == "LOCAL" else it[2], mask_for_sphinx(it[3])))
         elif it[0] == "code":
